@@ -367,9 +367,8 @@ func (s *c17Sys) readback(ctx context.Context, site string) *c17Viol {
 	sort.Slice(rs, func(i, j int) bool { return rs[i][0] < rs[j][0] || (rs[i][0] == rs[j][0] && rs[i][1] < rs[j][1]) })
 	for pass := 0; pass < 2; pass++ { // second pass: everything read in pass 1 is now served from the cache
 		for _, r := range rs {
-			if !s.valid(r[0], r[1]-r[0]) {
-				return &c17Viol{site + "/cache-entry-outside-file", fmt.Sprintf("cache holds entry [%d,%d) for a %d-byte file", r[0], r[1], len(s.f))}
-			}
+			// (a map key that does not describe a range inside the file is not judged as such - the map is
+			// private representation; the read below is judged like any other read: refused or correct)
 			l0 := s.logLen()
 			got, err, pan := c17SafeGet(s.rc, ctx, r[0], r[1]-r[0])
 			if v := s.judgeGet(site, r[0], r[1]-r[0], got, err, pan, s.logSince(l0)); v != nil {
